@@ -206,7 +206,7 @@ theorem clean_supplementLines (w : Int) (base : Nat) :
     rcases hs with hs | hs
     · subst hs
       split
-      · exact clean_problem c hc _
+      · exact clean_linkBlock c hc _ _ (clean_wrap _ _ (clean_problem c hc _))
       · rename_i alt hal
         have hn := altText_noCtl a (h a (by simp)).1 (h a (by simp)).2 alt hal
         exact clean_linkBlock c hc _ _ (clean_wrap _ _ (clean_plain _ hn))
